@@ -33,7 +33,17 @@ func (r *RuleEntity) AcceptInteger(val int64) error {
 }
 
 
-func (r *RuleEntity) Execute(dc *context.DataContext) (interface{}, error, bool) {
+func (r *RuleEntity) Execute(dc *context.DataContext) (res interface{}, err error, ret bool) {
+	// a fault that the statement nodes do not contain themselves (a non-boolean
+	// condition, "!" on a non-boolean, a failing reflect call in a condition or
+	// return expression) must fail this rule, not the caller or - in the
+	// concurrent models - the whole process
+	defer func() {
+		if e := recover(); e != nil {
+			res, ret = nil, false
+			err = errors.New(fmt.Sprintf("rule \"%s\" execute error: %+v", r.RuleName, e))
+		}
+	}()
 	v, e, b := r.RuleContent.Execute(dc, make(map[string]reflect.Value))
 	if v == reflect.ValueOf(nil) {
 		return nil, e, b
